@@ -53,3 +53,14 @@ def units_composite_conversion(a, b, c, d, x):
     f1, o1 = a.conversion_tuple_to(c)
     f2, o2 = b.conversion_tuple_to(d)
     return (x + o) * f, x * f1 * f2
+
+
+# ---- C30 ------------------------------------------------------------------------------------
+def smooth_max_plus_min(x, y, mu):
+    from openmdao.jax_funcs.smooth import smooth_max, smooth_min
+    return smooth_max(x, y, mu) + smooth_min(x, y, mu)
+
+
+def smooth_abs_even(x, mu):
+    from openmdao.jax_funcs.smooth import smooth_abs
+    return smooth_abs(x, mu), smooth_abs(-x, mu)
